@@ -21,6 +21,9 @@ def isLabel (s : String) : Bool := s.startsWith "//"
 
 def findDef (st : St) (l : String) : Option Attrs := st.defs.find? (·.label = l)
 
+/-- filegroups have no command, so they never show up in the action log -/
+def hasCmd (st : St) (l : String) : Bool := match findDef st l with | some a => a.cmd != .fg | none => true
+
 def depsOf (a : Attrs) : List String := a.srcs.filter isLabel
 def fileSrcsOf (a : Attrs) : List String := (a.srcs.filter (fun s => !isLabel s)).map (fun f => pkgOf a.label ++ "/" ++ f)
 
@@ -50,6 +53,8 @@ def hexS (s : String) : String := hexOfStr s
 def showTree : Tree → String
   | .file c => "f:" ++ hexS c
   | .dir es => "d:" ++ ",".intercalate (es.map fun e => e.1 ++ "=" ++ hexS e.2)
+  | .fileOpt c none => "f:" ++ hexS c
+  | .fileOpt c (some e) => "f:" ++ hexS c ++ "+x:" ++ hexS e
 
 def insSorted (s : String) : List String → List String
   | [] => [s]
@@ -70,6 +75,9 @@ def step (st : St) (line : String) : St × String :=
       | "cat", [] => some .cat
       | "catfirst", [] => some .catfirst
       | "mkdir", [] => some .mkdir
+      | "catn", [] => some .catn
+      | "fg", [] => some .fg
+      | "opt", [] => some .opt
       | "const", [h] => (strOfHex h).map .const
       | _, _ => none
     match cmd? with
@@ -81,6 +89,7 @@ def step (st : St) (line : String) : St × String :=
   | ["rmout", label] => ({ st with out := st.out.filter (·.1 ≠ label) }, "ok")
   | ["wipe"] => ({ st with out := [] }, "ok")
   | ["cacheon"] => ({ st with cacheOn := true }, "ok")
+  | ["cacheon", "z"] => ({ st with cacheOn := true }, "ok")     -- dircompress: same contract, the cache is a black box here
   | ["collapse", h] =>
     match bytesOfHex h with
     | some bs =>
@@ -97,18 +106,18 @@ def step (st : St) (line : String) : St × String :=
       let sel := fun k => order.contains k
       let keys := (st.out.map (·.1) ++ order).eraseDups
       if st.cacheOn then
-        let (out', cache', ran) := buildC generatedFacts exec ruleSer pathSer r sel (fun k => st.out.lookup k) (fun q => st.cache.lookup q)
+        let (out', cache', ran) := buildC generatedFacts mvE2E exec ruleSer pathSer r sel (fun k => st.out.lookup k) (fun q => st.cache.lookup q)
         let outL := keys.filterMap fun k => (out' k).map fun v => (k, v)
         -- cache keys that can have been added: (k, stamp now in plz-out) for k in order
         let newKeys := order.filterMap fun k => (out' k).map fun v => (k, v.2)
         let cacheL := (st.cache.map (·.1) ++ newKeys).eraseDups.filterMap fun q => (cache' q).map fun v => (q, v)
         let shown := (sortStrs order).map fun k => k ++ "=" ++ (match out' k with | some v => showTree v.1 | none => "missing")
-        ({ st with out := outL, cache := cacheL }, "ran=" ++ ",".intercalate (sortStrs ran) ++ "|" ++ ";".intercalate shown)
+        ({ st with out := outL, cache := cacheL }, "ran=" ++ ",".intercalate (sortStrs (ran.filter (hasCmd st))) ++ "|" ++ ";".intercalate shown)
       else
       let (out', ran) := buildE2E r sel (fun k => st.out.lookup k)
       let outL := keys.filterMap fun k => (out' k).map fun v => (k, v)
       let shown := (sortStrs order).map fun k => k ++ "=" ++ (match out' k with | some v => showTree v.1 | none => "missing")
-      ({ st with out := outL }, "ran=" ++ ",".intercalate (sortStrs ran) ++ "|" ++ ";".intercalate shown)
+      ({ st with out := outL }, "ran=" ++ ",".intercalate (sortStrs (ran.filter (hasCmd st))) ++ "|" ++ ";".intercalate shown)
   | ["clean", ls] =>
     let req := splitList ls
     match closure st req with
